@@ -18,7 +18,7 @@ ID = "C11"
 LEVEL = "exploration"
 TECHNIQUE = "generated event/lifecycle scripts (Hypothesis) vs id-keyed reference router; history invariant over the handler log"
 RULE = ("cases = scripts over 1-3 agent types: per step a list of sends (sender, receiver id incl. dead ids, optional delay "
-        "that is 0, < dt, a multiple or a non-multiple of dt, or a broadcast), per gap create/delete/delete-set/configure_agents/"
+        "that is 0, < dt, a multiple or a non-multiple of dt, a broadcast, or an event of a kind the receiver has no handler for), agents deleting agents while acting, per gap create/delete/delete-set/configure_agents/"
         "state-change; driven by run_step or run(). The handler log must equal the reference log (who, when, once, order). "
         "non-trivial = script has a send after a delete/reconfigure, or a delayed event, or >= 2 events to one agent in one step; "
         "distinct by script")
